@@ -1,6 +1,7 @@
 """Unit `crop`: byte/column arithmetic of the snippet cropping helpers (src/de/snippet.rs): C01 (no slice or index panic,
 no overflow) and C17 (the cropped line is the requested column window)."""
 from contracts_types import *
+import re
 NAME = 'crop'
 FEATURES = []
 USES = ['use vstd::string::*;', 'use vstd::utf8::*;']
@@ -172,4 +173,127 @@ ITEMS = location_types() + [
             dict(before_re=r"string_push\(&mut out, '\\n'\);", ghost=True, text='let ghost out_c = out@;'),
             dict(after_re=r"string_push\(&mut out, '\\n'\);", text='lemma_push_lf_len(out_c);'),
          ]),
+]
+ITEMS += [
+    # (row, column) -> byte offset inside a text whose line starts are known: where the marker of a report is put
+    dict(src=SN, path='fn line_col_to_byte_offset_with_starts', props=P,
+         rewrites=[(r'starts\.is_empty\(\)', '(starts.len() == 0)', 1, 'R8'),
+                   (r'starts\[row_idx \+ 1\]\.saturating_sub\(1\)', 'usize_sub_sat(starts[row_idx + 1], 1)', 1, 'R8'),
+                   (r"source\.as_bytes\(\)\.get\(line_end - 1\) == Some\(&b'\\r'\)", "str_byte_is(source, line_end - 1, b'\\\\r')", 1, 'R8'),
+                   (r'&source\[line_start\.\.line_end\]', 'str_slice(source, line_start, line_end)', 1, 'R8'),
+                   (r'col_to_byte_offset_in_line\(line, col_1\)\.map\(\|off\| line_start \+ off\)',
+                    """(match col_to_byte_offset_in_line(line, col_1) { Some(off) => { proof {
+                        let ia = char_index(source@, line_start as int); let ib = char_index(source@, line_end as int);
+                        assert(line@.len() == ib - ia && 0 <= col_1 - 1 <= ib - ia);
+                        assert(line_start + char_off(line@, col_1 - 1) == char_off(source@, ia + (col_1 - 1)));
+                        assert(char_off(source@, ib) == line_end);
+                        lemma_char_index_of_off(source@, ia + (col_1 - 1));
+                        lemma_char_off_monotonic(source@, ia + (col_1 - 1), char_index(source@, line_end as int));
+                    } Some(line_start + off) }, None => None })""", 1, 'R18'),
+                   STRLEN],
+         requires=[('starts_are_the_line_starts_of_the_text', 'line_starts_ok(source.spec_bytes(), source@, starts@)')],
+         proofs=[dict(at='start', text='lemma_char_off_ends(source@); axiom_str_len_bounded(source);'),
+                 dict(after_re=r'let line_start = starts\[row_idx\];', text="""
+                     lemma_line_starts_facts(source.spec_bytes(), source@, starts@, row_idx as int, row_idx as int);
+                     if row_idx + 1 < starts@.len() {
+                         lemma_line_starts_facts(source.spec_bytes(), source@, starts@, row_idx as int, row_idx as int + 1);
+                         lemma_line_start_follows_lf(source.spec_bytes(), source@, starts@, row_idx as int + 1);
+                         axiom_ascii_byte_is_a_char(source@, starts@[row_idx as int + 1] as int - 1);
+                     }"""),
+                 dict(after_re=r'let mut line_end = [^;]*;', ghost=True, text='let ghost line_end0 = line_end;'),
+                 dict(before_re=r'if line_end > line_start && str_byte_is', text='assert(boundary(source@, line_end as int) && line_start <= line_end && line_end <= source.spec_bytes().len());'),
+                 dict(before_re=r'let line = str_slice', text="""
+                     if line_end < line_end0 { axiom_ascii_byte_is_a_char(source@, line_end as int); }
+                     lemma_slice_char_offs(source@, line_start as int, line_end as int);""")],
+         ensures=[('C17:the_offset_is_the_reported_column_counted_in_characters_from_the_start_of_the_reported_line', """match r {
+                Some(off) => 1 <= row_1 <= starts@.len() && col_1 >= 1 && boundary(source@, off as int) && starts@[row_1 - 1] <= off <= source.spec_bytes().len()
+                    && char_index(source@, off as int) == char_index(source@, starts@[row_1 - 1] as int) + (col_1 - 1)
+                    && (row_1 < starts@.len() ==> off < starts@[row_1 as int]),
+                None => true }""")],
+         canaries=['C17:the_offset_is_the_reported_column_counted_in_characters_from_the_start_of_the_reported_line']),
+]
+ITEMS += [
+    # the end of the one-character marker span
+    dict(src=SN, path='fn next_char_boundary', props=P,
+         rewrites=[(r'&source\[start\.\.\]', 'str_slice(source, start, str_len(source))', 1, 'R8'),
+                   # R40: two successive next() calls on a char_indices() iterator are read off the collected vector of (offset, char) pairs
+                   (r'let mut it = s\.char_indices\(\);\s*let _ = it\.next\(\)\?;\s*match it\.next\(\) \{\s*Some\(\(i, _\)\) => Some\(start \+ i\),\s*None => Some\(source\.len\(\)\),\s*\}',
+                    """let it = str_char_indices(s);
+    proof {
+        let n = source.spec_bytes().len() as int; let ia = char_index(source@, start as int); let ib = char_index(source@, n);
+        lemma_slice_char_offs(source@, start as int, n);
+        assert(s@.len() == ib - ia);
+        if ib - ia >= 1 {
+            assert(start + char_off(s@, 1) == char_off(source@, ia + 1));
+            lemma_char_index_of_off(source@, ia + 1);
+            lemma_char_off_monotonic(source@, ia, ia + 1);
+            lemma_char_off_monotonic(source@, ia + 1, ib);
+        }
+    }
+    if it.len() == 0 { return None; }
+    if it.len() > 1 { let i = it[1].0; Some(start + i) } else { Some(source.len()) }""", 1, 'R40'),
+                   STRLEN],
+         requires=[('start_is_a_char_boundary', 'boundary(source@, start as int)')],
+         proofs=[dict(at='start', text='lemma_char_off_ends(source@); axiom_str_len_bounded(source);')],
+         ensures=[('C17:the_marker_span_ends_at_the_next_character', """match r {
+                Some(e) => start < source.spec_bytes().len() && boundary(source@, e as int) && start < e <= source.spec_bytes().len()
+                    && char_index(source@, e as int) == char_index(source@, start as int) + 1,
+                None => start >= source.spec_bytes().len() }""")],
+         canaries=['C17:the_marker_span_ends_at_the_next_character']),
+]
+# ---- where the marker goes: the part of Snippet::fmt_or_fallback (and of its sibling for the "defined here" window) between the
+# line table and the horizontal crop, lifted as a fragment; the early `return fmt_with_location(..)` fall-backs become `return None`
+def _marker_fragment(path, fid, text_expr, row, fallback_re, impl=None):
+    d = dict(src=SN, path=path, id=fid, props=P,
+         fragment=r'let line_starts = line_starts\(%s\);.*?let local_end = end\.saturating_sub\(window_start\)\.min\(window_text\.len\(\)\);' % re.escape(text_expr),
+         fragment_flags='S',
+         wrapper="fn %s(text: &str, %s: usize, col: usize) -> Option<(usize, usize, usize, usize, usize, usize, Vec<usize>)> { {FRAG} Some((window_start, window_end, local_start, local_end, window_start_row, window_end_row, line_starts)) }" % (re.sub(r'\W', '_', fid), row),
+         pre_rewrites=[(re.escape(text_expr), 'text', None, 'R9'), (fallback_re, 'return None;', None, 'R9')],
+         rewrites=[(r'let Some\(start\) =\s*line_col_to_byte_offset_with_starts\(text, &line_starts, %s, col\)\s*else \{\s*return None;\s*\};' % row,
+                    'let start = match line_col_to_byte_offset_with_starts(text, line_starts.as_slice(), %s, col) { Some(__s) => __s, None => { return None; } };' % row, 1, 'R22'),
+                   (r"match text\.as_bytes\(\)\.get\(start\) \{\s*Some\(b'\\n'\) \| Some\(b'\\r'\) => start,\s*_ => next_char_boundary\(text, start\)\.unwrap_or\(start\),\s*\}",
+                    "if str_byte_is(text, start, b'\\\\n') || str_byte_is(text, start, b'\\\\r') { start } else { match next_char_boundary(text, start) { Some(__e) => __e, None => start } }", 1, 'R18'),
+                   (r'%s\.saturating_sub\(2\)\.max\(1\)' % row, 'usize_max(%s.saturating_sub(2), 1)' % row, 1, 'R8'),
+                   (r'%s\.saturating_add\(2\)\.min\(total_lines\)' % row, 'usize_min(%s.saturating_add(2), total_lines)' % row, 1, 'R8'),
+                   (r'window_start_row\.min\(window_end_row\)', 'usize_min(window_start_row, window_end_row)', 1, 'R8'),
+                   (r'&text\[window_start\.\.window_end\]', 'str_slice(text, window_start, window_end)', 1, 'R8'),
+                   (r'start\.saturating_sub\(window_start\)\.min\(window_text\.len\(\)\)', 'usize_min(start.saturating_sub(window_start), str_len(window_text))', 1, 'R8'),
+                   (r'end\.saturating_sub\(window_start\)\.min\(window_text\.len\(\)\)', 'usize_min(end.saturating_sub(window_start), str_len(window_text))', 1, 'R8'),
+                   (r'line_starts\.is_empty\(\)', '(line_starts.len() == 0)', 1, 'R8'),
+                   STRLEN],
+         proofs=[dict(at='start', text='lemma_char_off_ends(text@); axiom_str_len_bounded(text);'),
+                 dict(before='let window_start = line_starts[window_start_row - 1];', text="""
+                     assert(1 <= window_start_row <= %(row)s <= window_end_row <= total_lines);
+                     lemma_line_starts_facts(text.spec_bytes(), text@, line_starts@, window_start_row as int - 1, %(row)s as int - 1);
+                     if window_end_row < total_lines {
+                         lemma_line_starts_facts(text.spec_bytes(), text@, line_starts@, %(row)s as int - 1, window_end_row as int);
+                         if %(row)s < window_end_row { lemma_line_starts_facts(text.spec_bytes(), text@, line_starts@, %(row)s as int, window_end_row as int); }
+                     }""" % dict(row=row)),
+                 dict(before_re=r'let local_start = usize_min', text="""
+                     assert(window_start <= start && start <= end);
+                     if window_end_row < total_lines {
+                         lemma_line_starts_facts(text.spec_bytes(), text@, line_starts@, %(row)s as int, window_end_row as int);
+                         if end > start {
+                             lemma_boundary_order(text@, start as int, line_starts@[%(row)s as int] as int);
+                             lemma_boundary_order(text@, end as int, line_starts@[%(row)s as int] as int);
+                         }
+                     }
+                     assert(end <= window_end);""" % dict(row=row))],
+         ensures=[('C17:the_marker_starts_at_the_reported_column_of_the_reported_line_inside_the_window', """match r {
+                Some(t) => ({ let ws = t.0 as int; let we = t.1 as int; let ls = t.2 as int; let le = t.3 as int; let r0 = t.4 as int; let r1 = t.5 as int;
+                    let starts = t.6@;
+                    &&& line_starts_ok(text.spec_bytes(), text@, starts)
+                    &&& 1 <= r0 <= %(row)s <= r1 <= starts.len() && %(row)s - r0 <= 2 && r1 - %(row)s <= 2
+                    &&& ws == starts[r0 - 1] && ws <= we <= text.spec_bytes().len() && boundary(text@, ws) && boundary(text@, we)
+                    &&& ls <= le <= we - ws && boundary(text@, ws + ls) && boundary(text@, ws + le)
+                    &&& char_index(text@, ws + ls) == char_index(text@, starts[%(row)s - 1] as int) + (col - 1)
+                    &&& (le == ls || char_index(text@, ws + le) == char_index(text@, ws + ls) + 1) }),
+                None => true }""" % dict(row=row))],
+         canaries=['C17:the_marker_starts_at_the_reported_column_of_the_reported_line_inside_the_window'])
+    if impl:
+        d['impl_header'] = impl
+    return d
+ITEMS += [
+    _marker_fragment('impl Snippet/fn fmt_or_fallback', 'Snippet::fmt_or_fallback#marker', 'self.source.text', 'relative_row', r'return fmt_with_location\(f, l10n, msg, location\);'),
+    _marker_fragment('fn fmt_snippet_window_with_mapping_or_fallback', 'fmt_snippet_window_with_mapping_or_fallback#marker', 'text', 'row', r'return Ok\(\(\)\);'),
 ]
